@@ -4,7 +4,7 @@
    run, per file in spawn order), `tears` lists files whose pending write was in progress with the
    number of bytes that reached the disk; everything in memory is lost and the store is re-opened. *)
 From Coq Require Import List NArith String Bool.
-From V Require Import lib.Strs gen.Consts model.RecordStore proofs.RecordStore proofs.RecordStoreCrash.
+From V Require Import lib.Strs gen.Consts model.RecordStore model.StoreStartup proofs.RecordStore proofs.RecordStoreCrash proofs.StoreStartup.
 Import ListNotations.
 Open Scope N_scope.
 
@@ -49,3 +49,49 @@ Theorem restart_safe_unencrypted_refuted :
   exists E ops tears k v, cipher_ok E /\ e_encrypt E = false /\
     get E (crash E (run E ops (init E)) tears) k = Some v /\ ~ In v (hist ops k).
 Proof. exact restart_safe_unencrypted_refuted_lemma. Qed.
+
+(* ---- crash points during node START-UP (driver.rs check_and_wipe_storage_dir_if_necessary runs before
+   the store is opened: version file read / created, on a mismatch the store is wiped and the version
+   file truncated and rewritten).  `spoint` enumerates where a start-up attempt may be killed. *)
+
+(* source-derived structural fact: the version file is modified, and the store wiped, only inside the
+   mismatch branch (regenerated from driver.rs on every run) *)
+Theorem version_file_written_only_on_mismatch : Consts.rs_version_written_only_on_mismatch = true.
+Proof. exact StoreStartup.version_file_written_only_on_mismatch. Qed.
+
+(* a start-up under the version the records were written with changes nothing on disk, wherever it
+   is killed -- for any number of attempts *)
+Theorem same_version_start_inert : forall cur p d, vfile d = Some cur -> startup cur p d = d.
+Proof. exact same_version_start_inert_lemma. Qed.
+
+Theorem same_version_starts_inert : forall cur ps d, vfile d = Some cur -> run_starts cur ps d = d.
+Proof. exact same_version_starts_inert_lemma. Qed.
+
+(* durability and safety for EVERY crash point, those during start-up included: crash of the running
+   node (torn files), any number of killed same-version start-ups, one that completes, re-open *)
+Theorem restart_durable_incl_startup : forall E, cipher_ok E -> e_encrypt E = Consts.rs_encrypt_records_shipped ->
+  forall ops tears cur ps k v,
+  flookup (fname k) (files (run E ops (init E))) = Some (file_bytes E k v) -> header_kind v <> None ->
+  ~ In k (map fst tears) ->
+  get E (restart_via_startup E (run E ops (init E)) tears cur ps) k = Some v
+  /\ contains (restart_via_startup E (run E ops (init E)) tears cur ps) k = true.
+Proof. exact restart_durable_incl_startup_lemma. Qed.
+
+Theorem restart_safe_incl_startup : forall E, cipher_ok E -> e_encrypt E = Consts.rs_encrypt_records_shipped ->
+  forall ops tears cur ps k v,
+  get E (restart_via_startup E (run E ops (init E)) tears cur ps) k = Some v -> In v (hist ops k).
+Proof. exact restart_safe_incl_startup_lemma. Qed.
+
+(* a version change wipes (intended), and an interrupted wipe is completed by the next start *)
+Theorem version_change_wipes : forall cur d, prev_version d <> cur -> startup cur SDone d = mkDisk (Some cur) [].
+Proof. exact version_change_wipes_lemma. Qed.
+
+Theorem interrupted_version_change_converges : forall cur p d, prev_version d <> cur ->
+  dfiles (startup cur SDone (startup cur p d)) = [] \/ p = SBefore.
+Proof. exact interrupted_version_change_converges_lemma. Qed.
+
+(* rewriting the version file on every start would not be safe *)
+Theorem rewrite_always_refuted :
+  exists cur d, vfile d = Some cur /\ dfiles d <> [] /\
+    dfiles (startup cur SDone (startup_rewrite_always cur SAfterTruncate d)) = [].
+Proof. exact rewrite_always_refuted_lemma. Qed.
